@@ -35,4 +35,14 @@ CHECKS = {
         ref="§4 C01, §2.4",
         note=_NOTE,
         technique="TLC model checking of transcribed algorithms + TLC trace validation of recorded bn calls against BigInt spec"),
+    "C19": dict(
+        text="The try/catch/finally/throw macros are transcribed into a TLA+ state machine (model/Err) whose programs "
+             "are generated lazily; TLC checks nearest-handler, handler-neither-skipped-nor-spurious, finaliser-exactly-once, "
+             "chain-restored and sticky-code for every program within the token budget (every nesting shape incl. blocks "
+             "in handler and finaliser position). Every complete program of the model is replayed through the REAL macros "
+             "(harness/err_vm.c) and seeded random longer/deeper token streams are executed and validated by driving the "
+             "model's own actions with the recorded tokens (trace/ErrTrace): observation histories must coincide.",
+        ref="§4 C19, §4a-C",
+        note=_NOTE,
+        technique="TLC model checking of the macro state machine + replay of all TLC-generated programs into the real macros + trace validation"),
 }
